@@ -10,7 +10,8 @@ RULE = ('E1: content bodies: all byte strings of length 1 and 2 (65792), all '
         'strings of length <= 6 (thorough 7) over the 9 symbols 00 01 03 08 '
         'ce A M Q P, lengths 7 8 255 256 4095 4096 65535 65536 131064 131072 '
         '131073 x 6 fill patterns (0xCE, AMQP, embedded frame, header '
-        'look-alike at every alignment) x 7 channels; heartbeat on every '
+        'look-alike at every alignment) x 7 channels; every length 1..4800 and '
+        'within 24 of 8192..131072 x 3 fills; heartbeat on every '
         'channel of the alphabet; protocol header: each octet 0..255 with '
         'the others over 0 1 9 255 (quick) / the full 256^3 space '
         '(thorough). Each case: library bytes == reference bytes, decode '
@@ -28,6 +29,8 @@ SELFTEST_TASK = ('hb',)
 
 def tasks(tier, seed):
     out = [('b1',), ('hb',), ('big',)]
+    out += [('lengths', lo, lo + 600) for lo in range(0, 4800, 600)]
+    out += [('lengths-far', 0, 0)]
     out += [('b2', hi) for hi in range(0, 256, 16)]
     maxlen = 7 if tier == 'thorough' else 6
     for a in range(len(SYMS)):
@@ -165,6 +168,20 @@ def run(task, ctx):
                 ch = chans[(len(body) + tup[0] + ctx.seed) % len(chans)]
                 ctx.case((body, ch), True,
                          sample=lambda: {'body': body.hex(), 'channel': ch})
+                check_body(ctx, body, ch)
+    elif kind in ('lengths', 'lengths-far'):
+        # every body length of a range (interior values, not only limits)
+        if kind == 'lengths':
+            lengths = range(max(1, task[1]), task[2])
+        else:
+            lengths = sorted({n for p2 in (8192, 16384, 32768, 65536, 131072)
+                              for n in range(p2 - 24, p2 + 25)})
+        for n in lengths:
+            for fill in (b'\xce', b'A', bytes([n % 251 + 1])):
+                body = fill * n
+                ch = chans[n % len(chans)]
+                ctx.case((n, fill, ch), True, sample=lambda: {
+                    'body_len': n, 'fill': fill.hex(), 'channel': ch})
                 check_body(ctx, body, ch)
     elif kind == 'big':
         for body in big_bodies():
